@@ -166,6 +166,40 @@ template<typename K,typename V> struct U<std::map<K,V> > {
 	}
 	static std::map<K,V> gen(int d) { std::map<K,V> v; unsigned n=width(d); for(unsigned i=0;i<n;i++) { K k=U<K>::gen(d+1); v[k]=U<V>::gen(d+1); } return v; }
 };
+// multi-containers: values are logged in container order (key order, insertion order among equivalent keys);
+// keys are drawn from two candidates so that runs of equivalent keys with different payloads are the rule
+template<typename T> struct MsetBy { static int by() { return 0; } static void same_key(T &x,T const &k) { x=k; } };
+template<typename K,typename V> struct U<std::multimap<K,V> > {
+	typedef std::multimap<K,V> M;
+	static std::string type() { return "{\"k\":\"mmap\",\"a\":"+U<K>::type()+",\"b\":"+U<V>::type()+"}"; }
+	static bool pod() { return false; }
+	static std::string val(M const &v)
+	{
+		std::string r="["; bool f=true;
+		for(typename M::const_iterator p=v.begin();p!=v.end();++p) { if(!f) r+=','; f=false; r+="["+U<K>::val(p->first)+","+U<V>::val(p->second)+"]"; }
+		return r+"]";
+	}
+	static M gen(int d)
+	{
+		M v; K cand[2]={U<K>::gen(d+1),U<K>::gen(d+1)};
+		unsigned n=(*R)(d>=2?4:6);
+		for(unsigned i=0;i<n;i++) v.insert(std::pair<K const,V>(cand[(*R)(3)==0],U<V>::gen(d+1)));
+		return v;
+	}
+};
+template<typename T> struct U<std::multiset<T> > {
+	typedef std::multiset<T> M;
+	static std::string type() { char b[16]; snprintf(b,sizeof(b),"%d",MsetBy<T>::by()); return "{\"k\":\"mset\",\"t\":"+U<T>::type()+",\"by\":"+b+"}"; }
+	static bool pod() { return false; }
+	static std::string val(M const &v) { return seqval(v); }
+	static M gen(int d)
+	{
+		M v; T cand[2]={U<T>::gen(d+1),U<T>::gen(d+1)};
+		unsigned n=(*R)(d>=2?4:6);
+		for(unsigned i=0;i<n;i++) { T x=U<T>::gen(d+1); if((*R)(4)) MsetBy<T>::same_key(x,cand[(*R)(3)==0]); v.insert(x); }
+		return v;
+	}
+};
 template<typename P,typename T> struct UPtr {
 	static std::string type() { return "{\"k\":\"ptr\",\"t\":"+U<T>::type()+"}"; }
 	static bool pod() { return false; }
@@ -201,6 +235,13 @@ struct S3 : public cppcms::serializable_base {
 	void load(cppcms::archive &ar) { ar >> id >> tags; }
 	void save(cppcms::archive &ar) const { ar << id << tags; }
 };
+// S1 is ordered by its first member only: equivalent elements of a multiset<S1> are distinguishable
+template<> struct MsetBy<S1> { static int by() { return 1; } static void same_key(S1 &x,S1 const &k) { x.a=k.a; } };
+struct S4 : public cppcms::serializable {
+	std::multimap<std::string,std::string> mm; std::multiset<S1> ms; std::map<int,std::multimap<int,std::string> > nested; int tail;
+	S4() : tail(0) {}
+	void serialize(cppcms::archive &ar) { ar & mm & ms & nested & tail; }
+};
 template<> struct U<S1> {
 	static std::string type() { return "{\"k\":\"struct\",\"fs\":["+U<int>::type()+","+U<std::string>::type()+","+U<std::vector<int> >::type()+"]}"; }
 	static bool pod() { return false; }
@@ -219,6 +260,14 @@ template<> struct U<S3> {
 	static bool pod() { return false; }
 	static std::string val(S3 const &v) { return "["+U<long long>::val(v.id)+","+U<std::set<int> >::val(v.tags)+"]"; }
 	static S3 gen(int d) { S3 s; s.id=U<long long>::gen(d+1); s.tags=U<std::set<int> >::gen(d+1); return s; }
+};
+
+template<> struct U<S4> {
+	typedef std::multimap<std::string,std::string> MM; typedef std::multiset<S1> MS; typedef std::map<int,std::multimap<int,std::string> > N;
+	static std::string type() { return "{\"k\":\"struct\",\"fs\":["+U<MM>::type()+","+U<MS>::type()+","+U<N>::type()+","+U<int>::type()+"]}"; }
+	static bool pod() { return false; }
+	static std::string val(S4 const &v) { return "["+U<MM>::val(v.mm)+","+U<MS>::val(v.ms)+","+U<N>::val(v.nested)+","+U<int>::val(v.tail)+"]"; }
+	static S4 gen(int d) { S4 s; s.mm=U<MM>::gen(d+1); s.ms=U<MS>::gen(d+1); s.nested=U<N>::gen(d+1); s.tail=U<int>::gen(d+1); return s; }
 };
 
 // ------------------------------------------------------------------ save / load through the public API
@@ -328,7 +377,7 @@ template<typename T,bool ser> static void run_type(char const *cpp)
 			std::string exc;
 			bool ok=IO<T,ser>::load(bytes,out,(api+1)%(ser?4:3),exc);
 			vt::J j; j.s("e","Load").raw("type",ty).bytes("bytes",bytes).b("ok",ok).raw("orig",sv);
-			if(ok) j.raw("value",U<T>::val(out)); else j.s("exc",exc);
+			if(ok) { j.raw("value",U<T>::val(out)); j.bytes("resave",IO<T,ser>::save(out,0)); } else j.s("exc",exc);
 			emit(j.str());
 		}
 		return;
@@ -441,7 +490,7 @@ template<typename T> static void wrap_type(char const *cpp,cppcms::cache_interfa
 		catch(std::exception const &e) { ok=false; exc=typeid(e).name(); }
 		emit(vt::J().s("e","Save").raw("type",ty).raw("value",sv).bytes("bytes",bytes).s("via",cache?"cache.store_data":"session.store_data").str());
 		vt::J j; j.s("e","Load").raw("type",ty).bytes("bytes",bytes).b("ok",ok).raw("orig",sv).s("via",cache?"cache.fetch_data":"session.fetch_data");
-		if(ok) j.raw("value",U<T>::val(out)); else j.s("exc",exc);
+		if(ok) { j.raw("value",U<T>::val(out)); j.bytes("resave",save_ser(out)); } else j.s("exc",exc);
 		emit(j.str());
 		if(i<2) {
 			std::vector<mutant> ms=mutants(bytes,4);
@@ -472,7 +521,7 @@ static void run_wrap()
 	cppcms::cache_interface ci(srv);
 	null_adapter ad;
 	cppcms::session_interface si(srv.session_pool(),ad);
-	wrap_type<S1>("S1",ci,si); wrap_type<S2>("S2",ci,si); wrap_type<S3>("S3",ci,si);
+	wrap_type<S1>("S1",ci,si); wrap_type<S2>("S2",ci,si); wrap_type<S3>("S3",ci,si); wrap_type<S4>("S4",ci,si);
 }
 
 #define TY(T) run_type<T,false>(#T)
@@ -483,6 +532,10 @@ typedef std::map<int,std::string> map_is;
 typedef std::map<std::string,int> map_si;
 typedef std::map<std::string,std::vector<std::string> > map_svs;
 typedef std::pair<std::string,std::vector<long long> > pair_svl;
+typedef std::multimap<int,std::string> mmap_is;
+typedef std::multimap<std::string,int> mmap_si;
+typedef std::map<std::string,std::multimap<int,std::string> > map_s_mmap;
+typedef std::pair<std::multimap<int,std::string>,std::multiset<S1> > pair_mm_ms;
 
 int main(int argc,char **argv)
 {
@@ -507,7 +560,9 @@ int main(int argc,char **argv)
 		TY(std::vector<vec_int>); TY(std::vector<pair_is>); TY(map_svs); TY(pair_svl);
 		TY(booster::shared_ptr<std::vector<std::string> >); TY(std::vector<booster::shared_ptr<std::string> >);
 		TY(std::list<std::set<std::string> >); TY(std::set<unsigned char>);
-		TYS(S1); TYS(S2); TYS(S3); TY(std::vector<S1>); TY(booster::shared_ptr<S2>);
+		TY(mmap_is); TY(mmap_si); TY(std::multiset<int>); TY(std::multiset<std::string>); TY(std::multiset<S1>);
+		TY(std::vector<mmap_is>); TY(map_s_mmap); TY(booster::shared_ptr<mmap_si>); TY(pair_mm_ms);
+		TYS(S1); TYS(S2); TYS(S3); TYS(S4); TY(std::vector<S1>); TY(booster::shared_ptr<S2>);
 		if(g_mode=="rt") { TY(double); TY(std::vector<double>); TY(cppcms::json::value); TY(std::vector<cppcms::json::value>); }
 	}
 	emit(vt::J().s("e","Reset").s("mode","end").str());
